@@ -3,10 +3,18 @@ claim("C01", "SSA path extraction of hash-input transcripts + key-wiring provena
       "Decides the structure of the RMCP+ key schedule on every path (what is hashed, in which order and encoding, keyed by which secret; algorithm tables; driver order). Not value-level key equality; HMAC/AES are trusted.", "DESIGN.md §4 C01")
 claim("C02", "must-pass-through on the session constructor's CFG (constant-time comparisons identified by transcript provenance)",
       "Every path returning a session passes both HMAC comparisons with the right operands; handshake helpers validate tag/status/error on every success path. Exhaustive over the constructor's and helpers' paths.", "DESIGN.md §4 C02")
+claim("C03", "literal/typestate rules on the in-session closure + ordering and E1 congruence obligations in the two serialisers + E2 layout tables",
+      "Every in-session packet is built from a fresh wrapper with the right flags, session ID, integrity hash and confidentiality layer; trailer/hash/signature order; pad congruences mod 4 and mod 16 on every path; IV from crypto/rand on every path; live buffer views; header and checksum layouts per specification. Not the HMAC/AES values.", "DESIGN.md §4 C03")
 claim("C04", "must-pass-through / edge-removal reachability on the accept path and the two decoders",
       "Every path on which a reply's completion code is used has tested the authenticated flag and session ID; the v2.0 session decoder's success exits are behind the signature comparison with whole operands; the AES layer's behind pad validation.", "DESIGN.md §4 C04")
 claim("C05", "abstract interpretation of lengths (linear forms + Fourier-Motzkin entailment, inferred loop invariants) over all decoders and reply-handling driver code",
       "Every index/slice (against len, not cap)/make/division/contract precondition reachable from the 36 decode entry points and the driver functions is entailed on every path for every input length and content; every loop matches a termination template; literal-nil dereferences, explicit panics and unguarded type assertions are obligations. Bounded only by an inlining depth and a step budget that fail loudly.", "DESIGN.md §3 E1, §4 C05")
+claim("C06", "bit-provenance symbolic evaluation of every request serialiser vs. specification tables; operation/command tables; literal rules",
+      "For all request layers and all field values within their wire width: each output byte equals the specified expression over field bits (per shape for the message and session header); NetFn/command/body of all commands; build literals; payload order; username guard.", "DESIGN.md §3 E2, §4 C06")
+claim("C07", "bit-provenance symbolic evaluation of every decoder vs. specification tables; satisfiability of minimal encodings; checksum must-checks",
+      "For 27 response layers: every tabled field is extracted from exactly the specified wire bits on every success path; the specification's minimal encodings are accepted; both checksums guard acceptance; length fields bound the payload windows. Fields without an independently justified position are listed as not covered.", "DESIGN.md §3 E2, §4 C07")
+claim("C08", "sibling agreement on bit provenance (serialiser wire-bit map vs decoder field-bit map, per shape) + buffer-view invalidation",
+      "For the v1.5/v2.0 session wrappers, the IPMI message (6 NetFn shapes), RAKP Message 1 and the three algorithm payloads: the two directions are mutual inverses on every wire bit; no serialiser uses a buffer view after a later grow; AES pad convention agrees. Not re-serialisation equality of computed fields.", "DESIGN.md §3 E2, §4 C08")
 claim("C09", "who-writes rule + CFG path counting on the in-session send closure",
       "Every store to the session sequence counter in the module is the closure's +1; on every closure path exactly one increment precedes the Send and the serialised Sequence is that value; session-less wrappers carry no ID/sequence.", "DESIGN.md §4 C09")
 claim("C10", "predicate true-set (exact partition evaluation) + closure path classification + fresh/dirty typestate across backoff.Retry",
@@ -32,9 +40,5 @@ claim("C20", "initialiser tables, exact predicate true-sets, normal forms / stru
 claim("C19", "interprocedural may-alias taint from package-level variables (field-based heap, CHA-resolved dynamic calls) + who-writes rule",
       "No store, map update, copy/append destination or external writer receives a value that may point into package-level state outside initialisers and the one documented registration function; no such pointer is stored into per-connection objects; the library starts no goroutines. An ownership argument, not a schedule exploration.", "DESIGN.md §3 E4, §4 C19")
 for p, why in {
-    "C03": "rule set not built yet (engines E2/E4)",
-    "C06": "rule set not built yet (engine E2)",
-    "C07": "rule set not built yet (engine E2)",
-    "C08": "rule set not built yet (engine E2)",
 }.items():
     na(p, why)
